@@ -136,6 +136,26 @@ def retype_keys(rng, cols, names, p=0.3):
             c["dtype"] = rng.choice(["cat", "enum"])
 
 
+FLOAT_TEXTS = ["nan", "inf", "-0.0", "1.5", "-inf", "2.0", "1e-07", "-3.25", "1e+22", "0.5"]  # (all different as floats)
+
+
+def float_keys(rng, col):
+    """a grouping column of Float dtype: its distinct labels become floats, among them NaN, the infinities and
+    the negative zero (kept in the spec as the text Python prints for them; dtype "floatx")"""
+    labels = []
+    for v in col["values"]:
+        if v is not None and v not in labels:
+            labels.append(v)
+    if not labels or len(labels) > len(FLOAT_TEXTS) or not all(isinstance(v, str) for v in labels):
+        return False
+    texts = ["nan"] + rng.sample(FLOAT_TEXTS[1:], len(labels) - 1)
+    rng.shuffle(texts)
+    m = dict(zip(labels, texts))
+    col["dtype"] = "floatx"
+    col["values"] = [None if v is None else m[v] for v in col["values"]]
+    return True
+
+
 def split_runs(rng, n, maxruns):
     """split n rows into 1..maxruns contiguous runs (lengths >= 1)"""
     if n <= 0:
